@@ -2,6 +2,8 @@ package main
 
 import (
 	"fmt"
+	"path/filepath"
+	"regexp"
 	"go/types"
 	"os"
 	"sort"
@@ -28,6 +30,8 @@ type Engine struct {
 	modset map[*ssa.Function]map[string]bool
 	// theories: contracts for functions outside the repo (assumed)
 	ext map[string]*Contract
+	ghosts map[string]*GhostDecl
+	readonly map[string]*ReadonlyGlobal
 	// counters
 	warnings []string
 }
@@ -57,8 +61,23 @@ func funcKey(f *ssa.Function) string {
 		}
 		return f.String()
 	}
-	return shortPkg(f.Pkg.Pkg.Path()) + "." + f.RelString(f.Pkg.Pkg)
+	name := f.RelString(f.Pkg.Pkg)
+	// init functions are numbered by file order (init#57): name them by their source file instead,
+	// so that adding an unrelated file does not re-target contracts
+	if m := initRe.FindStringSubmatch(name); m != nil && f.Prog != nil {
+		root := f
+		for root.Parent() != nil {
+			root = root.Parent()
+		}
+		if pos := root.Pos(); pos.IsValid() {
+			file := filepath.Base(f.Prog.Fset.Position(pos).Filename)
+			name = "init@" + file + m[2]
+		}
+	}
+	return shortPkg(f.Pkg.Pkg.Path()) + "." + name
 }
+
+var initRe = regexp.MustCompile(`^init#(\d+)(.*)$`)
 
 func loadEngine(repo string, patterns []string) (*Engine, error) {
 	cfg := &packages.Config{
